@@ -349,6 +349,10 @@ def run(ctx):
         ctx.expect(same_function(a_, b_, (A1, B1, A2, B2, thm)), "R06.6", "mem[_mem == numba_mem]",
                    "the vectorised and the jitted MEM implementations compute the same distribution", "src/ocean_science_utilities/wavespectra/estimators/mem.py")
     ctx.absorb(its)
+    # ------------------------------------------------------------------ R06.7 module-level solver defaults stay defaults
+    from ..sharedstate import shared_default_rule
+    shared_default_rule(ctx, "R06.7", ("wavespectra.estimators",))
+    ctx.require_count("R06.7", 1)
     ctx.require_count("R06.6", 11)
     ctx.require_count("R06.1", 8)
     ctx.require_count("R06.2", 20)
